@@ -1604,6 +1604,31 @@ struct TemplateCore {
             }
 
             case QOperation::Remainder: { // %
+                if ((left.Type == ExpressionType::NaturalNumber) && (right.Type != ExpressionType::RealNumber)) {
+                    // Naturals above 2^63 - 1 are not negative integers; the sign of the divisor does not matter.
+                    const SizeT64 magnitude =
+                        (((right.Type == ExpressionType::IntegerNumber) && (right.Value.Number.Integer < 0))
+                             ? (SizeT64{0} - right.Value.Number.Natural)
+                             : right.Value.Number.Natural);
+
+                    if (magnitude == 0) {
+                        return false;
+                    }
+
+                    left.Value.Number.Natural %= magnitude;
+                    break;
+                }
+
+                if ((right.Type == ExpressionType::NaturalNumber) && (right.Value.Number.Integer < 0) &&
+                    (left.Type == ExpressionType::IntegerNumber)) {
+                    // |left| <= 2^63 <= right: left is its own remainder, but for -2^63 % 2^63.
+                    if (left.Value.Number.Natural == right.Value.Number.Natural) {
+                        left.Value.Number.Integer = 0;
+                    }
+
+                    break;
+                }
+
                 const SizeT64I divisor = ((right.Type == ExpressionType::RealNumber) ? SizeT64I(right.Value.Number.Real)
                                                                                     : right.Value.Number.Integer);
 
